@@ -18,12 +18,18 @@
    Record objects (stateless; model Rec with the generated `rcfg`):
      {"op":"rec","line":[n,…],"hist":[["enter"] | ["exit",b] | ["call",route] | ["line",[n,…]], …]}
    answer {"model":[out,…],"spec":[out,…]}, out = {"kind":"unit"} | {"kind":"ok","value":[[key,n],…]} | {"kind":"exc","exc":…}
+
+   Calls of any shape (stateless; model Act, bodies completed by `bodyOf` from the generated `cacheOpSites`):
+     {"op":"act","w":[a,b,c],"hist":[["enter"] | ["exit"] | ["change",[a,b,c]] | ["call",fn,[["get",src,viaFront] | ["tick"],…],[[a,b,c],…]], …]}
+   answer {"model":{"outs":[[n,…],…],"reads":[[r,r,r],…]},"spec":{"outs":[[n,…],…]}}  (src: 0 stat, 1 status, 2 smaps)
 -/
 import PsutilModel.Base.Proto
 import PsutilModel.Model.C16Gen
 import PsutilModel.Spec.C16
 import PsutilModel.Model.C16RecGen
 import PsutilModel.Spec.C16Rec
+import PsutilModel.Model.C16ActGen
+import PsutilModel.Spec.C16Act
 open Lean Psutil Psutil.Proto Psutil.C16
 
 structure DSt where
@@ -365,6 +371,55 @@ def handleRec (j : Json) : R Json := do
   pure (jObj [("model", jList jRecOut (Rec.outs Rec.rcfg ⟨Rec.St.init, line⟩ hist)),
               ("spec", jList jRecOut (Rec.RSpec.outsR Rec.rcfg ⟨Rec.RSpec.SSt.init, line⟩ hist))])
 
+/- ---------------------------------------------------------------- calls of any shape -/
+def actSrcs : List Act.Src := [.stat, .status, .smaps]
+
+def parseWorld (j : Json) : R Act.World := do
+  let l ← asList asNat j
+  pure fun s => match s with
+    | .stat => l.getD 0 0
+    | .status => l.getD 1 0
+    | .smaps => l.getD 2 0
+
+def parseActStep (j : Json) : R Act.Step :=
+  match j.getArr? with
+  | .ok #[k] => do
+    let k ← asStr k
+    if k == "tick" then pure .tick else .error s!"bad act step {k}"
+  | .ok #[k, s, vf] => do
+    let k ← asStr k
+    if k != "get" then .error s!"bad act step {k}" else
+    let i ← asNat s
+    match actSrcs[i]? with
+    | some src => return .get src (← asBool vf)
+    | none => .error "bad source"
+  | _ => .error "bad act step"
+
+def parseActOp (j : Json) : R Act.Op :=
+  match j.getArr? with
+  | .ok #[k] => do
+    let k ← asStr k
+    if k == "enter" then pure .enter else if k == "exit" then pure .exit else .error s!"bad act op {k}"
+  | .ok #[k, a] => do
+    let k ← asStr k
+    if k == "change" then return .change (← parseWorld a) else .error s!"bad act op {k}"
+  | .ok #[k, fn, b, ws] => do
+    let k ← asStr k
+    if k != "call" then .error s!"bad act op {k}" else
+    return .call (Act.bodyOf (← asStr fn) (← asList parseActStep b)) (← asList parseWorld ws)
+  | _ => .error "bad act op"
+
+def actReads : Act.St → List Act.Op → List (List Nat)
+  | _, [] => []
+  | σ, o :: os => let σ' := (Act.step σ o).1; actSrcs.map σ'.reads :: actReads σ' os
+
+def handleAct (j : Json) : R Json := do
+  let w ← parseWorld (← field j "w")
+  let hist ← listF parseActOp j "hist"
+  pure (jObj [("model", jObj [("outs", jList (jList jNat) (Act.outs (Act.St.init w) hist)),
+                              ("reads", jList (jList jNat) (actReads (Act.St.init w) hist))]),
+              ("spec", jObj [("outs", jList (jList jNat) (Act.ASpec.outsS (Act.ASpec.SSt.init w) hist))])])
+
 def handle (d : DSt) (j : Json) : R (DSt × Json) := do
   let op ← strF j "op"
   if op == "reset" then
@@ -375,6 +430,8 @@ def handle (d : DSt) (j : Json) : R (DSt × Json) := do
     return (d, ← handleConc2 j)
   if op == "rec" then
     return (d, ← handleRec j)
+  if op == "act" then
+    return (d, ← handleAct j)
   let o ← parseOp j
   let (y', out) := step cfg d.y o
   let (ss', w', outS) := Spec.stepS cfg.meths cfg.validNames d.ss d.w o
